@@ -83,6 +83,15 @@ def run(out, rng, tier, args):
                     cb.named(b2)
                     cb.eq(a2, b2)
                     pairs.append((r, tstar, len(cb.ops) - 5, big))
+            if not near_flag:
+                # budget zero: no iteration may run whatever the threshold and the thread count
+                for r in (rng.choice([0.0, 0.5, float("nan"), 1e9]), float("inf")):
+                    a = cb.solve(method, 0, r, threads, params, draws)
+                    cb.named(a)
+                    b_ = cb.solve(method, 0, 0.0, 1, params, draws)
+                    cb.named(b_)
+                    cb.eq(a, b_)
+                    pairs.append((r, 0, len(cb.ops) - 5, 0))
             cb.meta["pairs"] = pairs
             cases.append(cb)
             cid += 1
@@ -109,11 +118,14 @@ def monitor(cb, impl):
         ba = [b2f(x) for x in a["ok"]]
         bb = [b2f(x) for x in b_["ok"]]
         exact = cb.meta["threads"] == 1
-        same_b = ba == bb if exact else all(abs(x - y) <= 1e-9 * max(1.0, abs(x)) for x, y in zip(ba, bb))
+        same_b = ba == bb if exact else all(x == y or abs(x - y) <= 1e-9 * max(1.0, abs(x)) for x, y in zip(ba, bb))
         same_s = (eq.get("ok") is True) if exact else _named_close(na, nb)
         if not (same_b and same_s):
             hits.append(("solve(N=%d, r=%r) differs from solve(t*=%d, 0): bounds %r vs %r, strategies equal: %s "
                          "(bound trajectory %r)" % (n, r, tstar, ba, bb, same_s, cb.meta["traj"]), "not-first-below"))
+        if n == 0 and not all(math.isinf(x) and x > 0 for x in ba):
+            hits.append(("budget 0 (threshold %r, %d threads): bounds %r are not infinite - an iteration ran" % (r, cb.meta["threads"], ba),
+                         "budget-exceeded"))
         if tstar < n and not (ba[2] < r):
             hits.append(("stopped early (t*=%d < N=%d) with bound %r not below the threshold %r" % (tstar, n, ba[2], r),
                          "bound-not-below"))
